@@ -17,10 +17,10 @@ open Pymeeus Pymeeus.P@K@ Pymeeus.Gen@K@.Kepler
 /-- `x ** y` on floats (C `pow`).  Over ℝ: `Real.rpow`; a negative base with a fractional exponent
     (Python: a complex result) is excluded by the callers below. -/
 --@only R
-def ppow (x y : Num) : Num := Real.rpow x y
+def elpow (x y : Num) : Num := Real.rpow x y
 --@end
 --@only F
-def ppow (x y : Num) : Num := Float.pow x y
+def elpow (x y : Num) : Num := Float.pow x y
 --@end
 
 /-- `round(x, 0)` of a float: nearest integer, ties to even, as a float (keeps the sign of a zero result and
@@ -113,7 +113,7 @@ def rm (el : Ell) (lat : Num) : PyRes Num :=
     -- return (a * (1.0 - e * e)) / (1.0 - e * e * sin(phi) * sin(phi)) ** 1.5
     let base := 1.0 - e * e * psin phi * psin phi
     if plt base 0 then .error .other else
-    fdiv (a * (1.0 - e * e)) (ppow base 1.5)
+    fdiv (a * (1.0 - e * e)) (elpow base 1.5)
 
 /-- `Earth.distance(lon1, lat1, lon2, lat2)`: `(dist, error)` in metres (Andoyer's formula). -/
 def distance (el : Ell) (lon1 lat1 lon2 lat2 : Num) : PyRes (Num × Num) :=
@@ -126,12 +126,12 @@ def distance (el : Ell) (lon1 lat1 lon2 lat2 : Num) : PyRes (Num × Num) :=
   let g := (phi1 - phi2) / 2.0
   let lam := (l1 - l2) / 2.0
   -- sin2g = sin(g) ** 2 ... cos2lam = cos(lam) ** 2
-  let sin2g := ppow (psin g) 2
-  let cos2g := ppow (pcos g) 2
-  let cos2f := ppow (pcos f) 2
-  let sin2f := ppow (psin f) 2
-  let sin2lam := ppow (psin lam) 2
-  let cos2lam := ppow (pcos lam) 2
+  let sin2g := elpow (psin g) 2
+  let cos2g := elpow (pcos g) 2
+  let cos2f := elpow (pcos f) 2
+  let sin2f := elpow (psin f) 2
+  let sin2lam := elpow (psin lam) 2
+  let cos2lam := elpow (pcos lam) 2
   -- s = sin2g * cos2lam + cos2f * sin2lam ; c = cos2g * cos2lam + sin2f * sin2lam
   let s := sin2g * cos2lam + cos2f * sin2lam
   let c := cos2g * cos2lam + sin2f * sin2lam
